@@ -345,6 +345,30 @@ Fixpoint adjoint (e : oexpr) : oexpr :=
   | Diag l => Diag (map adjoint l)
   end.
 
+(* structural well-formedness, as a boolean (what the constructors of operator.py / pspace_ops.py
+   check: equal domains / ranges, vector in the right space); leaves are not inspected *)
+Fixpoint veqb (x y : list T) : bool :=
+  match x, y with
+  | [], [] => true
+  | a :: x', b :: y' => (a =? b) && veqb x' y'
+  | _, _ => false
+  end.
+Fixpoint wfb (e : oexpr) : bool :=
+  match e with
+  | Leaf _ => true
+  | Sum a b => wfb a && wfb b && veqb (dom a) (dom b) && veqb (ran a) (ran b)
+  | Comp a b => wfb a && wfb b && veqb (dom a) (ran b)
+  | LScal _ a | RScal a _ => wfb a
+  | LVec v a => wfb a && Nat.eqb (length v) (length (ran a))
+  | RVec a v => wfb a && Nat.eqb (length v) (length (dom a))
+  | FLVec wv v a => wfb a && veqb (ran a) [none_] && Nat.eqb (length v) (length wv) && veqb (vconj wv) wv
+  | Reduce l => forallb wfb l && negb (Nat.eqb (length l) 0)
+                && forallb (fun a => veqb (ran a) (match l with a0 :: _ => ran a0 | [] => [] end)) l
+  | Bcast l => forallb wfb l && negb (Nat.eqb (length l) 0)
+               && forallb (fun a => veqb (dom a) (match l with a0 :: _ => dom a0 | [] => [] end)) l
+  | Diag l => forallb wfb l
+  end.
+
 (* the unique adjoint w.r.t. the weights, built from the unweighted one:
    W_dom^-1 o B o W_ran  (variant switch of the recorded findings) *)
 Definition true_adjoint_of (wd wr : list T) (B : list T -> list T) (y : list T) : list T :=
